@@ -445,6 +445,7 @@ func (b *browser) do(rp *replica, method, target string, hdr http.Header) *respo
 	}
 	for _, c := range b.cookiesFor(&u) {
 		req.AddCookie(c)
+		addSecret("cookie_value", c.Value) // whatever a browser presents - genuine, forged, damaged, from another deployment - must never be written to a log
 	}
 	rec := httptest.NewRecorder()
 	rp.h.ServeHTTP(rec, req)
